@@ -192,6 +192,28 @@ pub fn worker_call(src: &str) -> String {
     }
 }
 
+/// Literal forms whose parsing accumulates a number digit by digit: each template with a run of
+/// k = 0..=40 copies of one digit (overflow of the accumulator needs 9..=20 digits).
+pub fn pumped_literals() -> Vec<String> {
+    let templates = [
+        "x = '\\u{@}'", "x = '\\x@'", "x = 0x@", "x = 0b@", "x = 0o@", "x = @", "x = -@", "x = @.5", "x = 1.@", "x = 1e@", "x = 1e-@", "x = 1.5e@", "x = @e2",
+        "x = '{1:@}'", "x = '{1:.@}'", "x = '{1:<@}'", "x = '{1:@.@}'", "x = '{1:0@}'", "x = (1, 2)[@]", "x = (1, 2)[@..]", "x = @..@", "x = 0..=@", "x = [0][-@]",
+        "x = 'a'[@..@]", "x = |a| a.@", "x = r#@'a'#@", "x = 1 << @", "x = '\\u{@'", "x = '\\u@}'", "x = @._", "x = @_@", "x = 0x_@", "x = @x@",
+    ];
+    let digits = ["0", "1", "7", "9", "f", "F"];
+    let mut out = vec![];
+    for t in templates {
+        for d in digits {
+            for k in 0..=40usize {
+                out.push(t.replace('@', &d.repeat(k)));
+            }
+        }
+    }
+    out.sort();
+    out.dedup();
+    out
+}
+
 fn core_functions() -> Vec<(String, String)> {
     // read the module contents from a live runtime so the list follows the implementation
     let koto = Koto::with_settings(KotoSettings::default());
@@ -332,6 +354,35 @@ pub fn run(args: &Args) -> i32 {
         out
     });
     record_text(res, "corpus-neighbourhood", &mut report);
+    // literals with a pumped digit run: every template x digit x run length 0..=40
+    let pumped = pumped_literals();
+    let res = par_shards_big_stack(16, 64 << 20, |shard| {
+        let mut out = TextOut { n: 0, compiled: 0, formatted: 0, failures: vec![], distinct: HashSet::new() };
+        for (i, m) in pumped.iter().enumerate() {
+            if i % 16 != shard {
+                continue;
+            }
+            out.n += 1;
+            match text_pipeline(m) {
+                Ok(o) => {
+                    if o & 1 != 0 {
+                        out.compiled += 1;
+                    }
+                    if o & 2 != 0 {
+                        out.formatted += 1;
+                    }
+                    out.distinct.insert(hash_of(&(o, m.len() / 8)));
+                }
+                Err(p) => {
+                    if out.failures.len() < 5 {
+                        out.failures.push((m.clone(), p));
+                    }
+                }
+            }
+        }
+        out
+    });
+    record_text(res, "pumped-literals", &mut report);
 
     // (2) core library calls
     let fns = core_functions();
@@ -432,6 +483,10 @@ pub fn run(args: &Args) -> i32 {
         let eff = lines.iter().position(|l| l.starts_with("cb = |x|") || l.trim_start().starts_with("@<: |o|")).and_then(|i| lines.get(i + 1)).map(|l| l.trim().to_string()).unwrap_or_default();
         labels.push(format!("re-entrant: `{call}` while its callback / comparison does `{eff}`"));
         scripts.push(prog.replace("print r\n", "d = '{r}'\n").replace("print l\n", "d = '{l}'\n").replace("print m\n", "d = '{m}'\n").replace("print 'error'\n", "d = '{err}'\n"));
+    }
+    for m in pumped_literals() {
+        labels.push(format!("pumped literal: {m}"));
+        scripts.push(format!("try\n  {m}\n  d = '{{x}}'\ncatch e\n  d = '{{e}}'\n"));
     }
     let answers = crate::workers::run_pool("lib-call", &scripts, threads(), std::time::Duration::from_millis(tier.pick(700, 3000)), tier.pick(600_000, 1_500_000));
     let mut calls_ok = 0u64;
